@@ -26,7 +26,7 @@ VERIF = os.path.dirname(os.path.dirname(os.path.abspath(__file__)))
 REPO = os.path.abspath(os.environ.get('VERIF_REPO', '/repo'))
 SEED = int(os.environ.get('VERIF_SEED', '0') or 0)
 NWORKERS = int(os.environ.get('VERIF_WORKERS', '0') or 0) or min(16, os.cpu_count() or 4)
-CASE_TIMEOUT = int(os.environ.get('VERIF_CASE_TIMEOUT', '20'))
+CASE_TIMEOUT = int(os.environ.get('VERIF_CASE_TIMEOUT', '90'))
 BATCH = 128
 
 
